@@ -161,34 +161,53 @@ func (w *worker) kill() {
 }
 
 var (
-	hangMu    sync.Mutex
-	hangCount int
+	hangMu      sync.Mutex
+	hangCount   int           // confirmed hangs so far
+	slowest     time.Duration // the slowest case that did complete (per 20 000 characters of value text)
+	slowCases   int           // cases that exceeded their first deadline but completed when re-run alone
+	skippedRest int
 )
 
-// deadline of one case: generous for big values, short once hangs have been seen
-func caseDeadline(c *tcase) time.Duration {
+// The deadlines only bound hangs.  A case first gets a generous deadline that grows with its size and
+// with the slowest case seen to complete (so a loaded machine stretches it); a case that exceeds it is
+// RE-RUN ALONE on a fresh worker with a much longer deadline and is reported as a hang only if that
+// expires too.  After two confirmed hangs further cases are judged against 100x the slowest completed
+// case (at least 20 s), and after twelve the remaining cases are skipped: the verdict is settled.
+func firstDeadline(c *tcase) time.Duration {
 	hangMu.Lock()
-	n := hangCount
-	hangMu.Unlock()
-	base := 8 * time.Second
-	switch {
-	case n >= 10:
-		base = time.Second
-	case n >= 3:
-		base = 2 * time.Second
+	defer hangMu.Unlock()
+	units := time.Duration(1 + len(c.line)/20000)
+	d := 45*time.Second + units*5*time.Second
+	if hangCount >= 2 {
+		d = 20*time.Second + units*2*time.Second
 	}
-	return base + time.Duration(len(c.line)/20000)*time.Second
+	if rel := 100 * slowest * units; rel > d {
+		d = rel
+	}
+	return d
+}
+
+const confirmDeadline = 120 * time.Second
+
+func noteCompleted(c *tcase, took time.Duration) {
+	per := took / time.Duration(1+len(c.line)/20000)
+	hangMu.Lock()
+	if per > slowest {
+		slowest = per
+	}
+	hangMu.Unlock()
 }
 
 // runOne sends one case to the worker and collects its answers; phase names where it stopped
-func runOne(w *worker, idx int, c *tcase) (alive bool) {
+func runOne(w *worker, idx int, c *tcase, deadline time.Duration) (alive bool) {
+	began := time.Now()
 	req := fmt.Sprintf("%d\t%d\t%d\t%s\t%s\n", idx, c.hseed, connLimit, vh.Hex(c.rest), c.v.LineX())
 	if _, err := io.WriteString(w.stdin, req); err != nil {
 		c.died, c.phase = true, "build"
 		return false
 	}
 	c.phase = "build"
-	timer := time.NewTimer(caseDeadline(c))
+	timer := time.NewTimer(deadline)
 	defer timer.Stop()
 	for {
 		select {
@@ -223,13 +242,11 @@ func runOne(w *worker, idx int, c *tcase) (alive bool) {
 				c.connRun, c.connLine = d.ConnRun, d.ConnLine
 				c.connOut = vh.Outcome{Panic: d.ConnPanic, Timeout: d.ConnHang}
 				c.phase = ""
+				noteCompleted(c, time.Since(began))
 				return true
 			}
 		case <-timer.C:
 			c.hung = true
-			hangMu.Lock()
-			hangCount++
-			hangMu.Unlock()
 			return false
 		}
 	}
@@ -250,12 +267,53 @@ func runBatch(cases []*tcase) {
 			defer wg.Done()
 			var w *worker
 			for i := range jobs {
+				hangMu.Lock()
+				settled := hangCount >= 12
+				if settled {
+					skippedRest++
+				}
+				hangMu.Unlock()
+				if settled {
+					cases[i].skipped = true
+					continue
+				}
 				if w == nil {
 					w = startWorker()
 				}
-				if !runOne(w, i, cases[i]) {
-					w.kill()
-					w = nil
+				c := cases[i]
+				if runOne(w, i, c, firstDeadline(c)) {
+					continue
+				}
+				w.kill()
+				w = nil
+				if !c.hung {
+					continue // the worker died: reported as a crash
+				}
+				// exceeded its first deadline: confirm alone, with a much longer one, before calling it a hang
+				hangMu.Lock()
+				confirmed := hangCount >= 2
+				hangMu.Unlock()
+				if confirmed {
+					hangMu.Lock()
+					hangCount++
+					hangMu.Unlock()
+					continue
+				}
+				again := &tcase{v: c.v, line: c.line, rest: c.rest, hseed: c.hseed}
+				w2 := startWorker()
+				ok := runOne(w2, i, again, confirmDeadline)
+				w2.kill()
+				if ok {
+					again.errExp = c.errExp
+					*c = *again // it was only slow
+					hangMu.Lock()
+					slowCases++
+					hangMu.Unlock()
+				} else {
+					c.phase, c.died = again.phase, again.died
+					hangMu.Lock()
+					hangCount++
+					hangMu.Unlock()
 				}
 			}
 			if w != nil {
@@ -273,7 +331,7 @@ func hangsAlone(v *vg.V, hseed uint64, d time.Duration) (bool, string) {
 	defer w.kill()
 	c := &tcase{v: v, line: v.Line(), hseed: hseed}
 	done := make(chan bool, 1)
-	go func() { done <- runOne(w, 0, c) }()
+	go func() { done <- runOne(w, 0, c, d) }()
 	select {
 	case <-done:
 		return c.hung || c.died, c.phase
